@@ -96,6 +96,19 @@ int main(int argc, char ** argv)
         b.set_time(0.0);
         events++;
         sigs.insert(hash_str(signature(b)));
+        if (i < 3) {
+          // the third documented start mode, "initialise and generate one event" in one call on a fresh parameter block, is the
+          // initialisation followed by one generation
+          bxdecay0::bbpars p0;
+          bxdecay0::event c;
+          int ier0 = 0;
+          tape.rewind();
+          bxdecay0::genbbsub(tape, c, bxdecay0::GENBBSUB_I2BBS_BACKGROUND, name, -1, -1, bxdecay0::GENBBSUB_ISTART_INIT_GENERATE_ONE, ier0, p0);
+          if (ier0 != 0 || tape.pos != da || !events_bit_identical(a, c))
+            rec(lab + "|start-mode", fmt("genbbsub('%s', INIT_GENERATE_ONE) gives ier=%d, %zu deviates, %zu particles; INIT then GENERATE gives %zu deviates, %zu particles", name.c_str(), ier0,
+                                         tape.pos, c.get_particles().size(), da, a.get_particles().size()),
+                tape, std::max(da, tape.pos), a, c);
+        }
         if (da != db || !events_bit_identical(a, b))
           rec(lab + "|dispatch", fmt("genbbsub('%s') consumed %zu deviates and gives %zu particles; its own scheme(s) consume %zu and give %zu", name.c_str(), da,
                                      a.get_particles().size(), db, b.get_particles().size()),
@@ -206,6 +219,17 @@ int main(int argc, char ** argv)
         b.set_time(0.0);
         events++;
         sigs.insert(hash_str(signature(b)));
+        if (i < 3) {
+          bxdecay0::bbpars p0;
+          bxdecay0::event c;
+          int ier0 = 0;
+          tape.rewind();
+          bxdecay0::genbbsub(tape, c, bxdecay0::GENBBSUB_I2BBS_DBD, name, level, mode, bxdecay0::GENBBSUB_ISTART_INIT_GENERATE_ONE, ier0, p0);
+          if (ier0 != 0 || tape.pos != da || !events_bit_identical(a, c))
+            rec(lab + "|start-mode", fmt("genbbsub DBD '%s' with INIT_GENERATE_ONE gives ier=%d, %zu deviates, %zu particles; INIT then GENERATE gives %zu deviates, %zu particles", name.c_str(),
+                                         ier0, tape.pos, c.get_particles().size(), da, a.get_particles().size()),
+                tape, std::max(da, tape.pos), a, c);
+        }
         if (da != db || !events_bit_identical(a, b))
           rec(lab + "|dispatch", fmt("genbbsub DBD '%s' consumed %zu deviates / %zu particles; bb + %s%s consume %zu / %zu", name.c_str(), da, a.get_particles().size(),
                                      low.c_str(), chain.empty() ? "" : " + chain", db, b.get_particles().size()),
